@@ -432,6 +432,9 @@ def thousands_commas(v, name='(Unknown name)', md={},
                          r"([0-9])([0-9][0-9][0-9]([,.]|$))").search):
     if isinstance(v, bytes):
         return thousands_commas(v.decode('utf-8')).encode('utf-8')
+    if isinstance(v, TaintedString):
+        # keep the taint
+        return TaintedString(thousands_commas(str(v)))
     v = str(v)
     vl = v.split('.')
     if not vl:
